@@ -62,15 +62,15 @@ theorem cdcInv_foldl (chunks : List (List UInt8)) (st : CdcState) (data : List U
     exact ih _ _ (cdcInv_write st data c h)
 
 theorem cdcFinish_of_inv (st : CdcState) (data : List UInt8) (h : CdcInv st data) :
-    cdcFinish st = cdcSpec data := by
+    cdcFinish st = cdcRust data := by
   cases st with
   | computed t =>
     obtain ⟨hl, ht⟩ := h
-    unfold cdcFinish cdcSpec
+    unfold cdcFinish cdcRust
     rw [if_neg (by omega), ht]
   | feeding len buf =>
     obtain ⟨hlen, _, hdl, _⟩ := h
-    unfold cdcFinish cdcSpec
+    unfold cdcFinish cdcRust
     rw [if_pos (by omega)]
 
 /-- Pigeonhole: a duplicate-free list of naturals below `n` has at most `n` elements. -/
@@ -288,6 +288,47 @@ theorem foldl_place_get (values : List RawValue) (ps : List PkIndex) (acc : List
         split
         · rw [List.getElem?_set, if_neg hne]; exact hnone
         · exact hnone
+
+/-! ### the `u16` increment of the iterator offset cannot overflow -/
+
+/-- `extractLoop` without the `index + 1` overflow branch. -/
+def extractLoopNoOvf (count : Nat) :
+    List PkIndex → List RawValue → Nat → List (Option (List UInt8)) → Except ExtractErr (List (Option (List UInt8)))
+  | [], _, _, acc => .ok acc
+  | p :: ps, iter, off, acc =>
+    if p.index < off then .error .panic
+    else
+      match iter.drop (p.index - off) with
+      | [] => .error (.noPkIndexValue p.index count)
+      | v :: rest =>
+        match store acc p.sequence v with
+        | none => .error .panic
+        | some acc' => extractLoopNoOvf count ps rest (p.index + 1) acc'
+
+/-- As long as at most 65535 values are bound (the `u16` element count of `SerializedValues`), a value found at
+marker `index` implies `index + 1 ≤ 65535`: the overflow branch of `values_iter_offset = pk_index.index + 1` is dead. -/
+theorem extractLoop_no_overflow (count : Nat) (hc : count ≤ 65535) (ps : List PkIndex) (iter : List RawValue)
+    (off : Nat) (acc : List (Option (List UInt8))) (hinv : iter.length + off ≤ count) :
+    extractLoop count ps iter off acc = extractLoopNoOvf count ps iter off acc := by
+  induction ps generalizing iter off acc with
+  | nil => rfl
+  | cons p ps ih =>
+    unfold extractLoop extractLoopNoOvf
+    split
+    · rfl
+    · rename_i hge
+      cases hd : iter.drop (p.index - off) with
+      | nil => rfl
+      | cons v rest =>
+        simp only []
+        have hlen : (iter.drop (p.index - off)).length = rest.length + 1 := by rw [hd]; rfl
+        rw [List.length_drop] at hlen
+        cases store acc p.sequence v with
+        | none => rfl
+        | some acc' =>
+          simp only []
+          rw [if_neg (by omega)]
+          exact ih rest (p.index + 1) acc' (by omega)
 
 /-! ### composite encoding -/
 
